@@ -35,30 +35,156 @@ def _kw(call, name):
 import copy as _copy0, hashlib as _hashlib
 
 
-def _alpha(fn):
-    """deep copy of a FunctionDef with every LOCAL name (assigned names, loop targets, nested functions and
-    their parameters, nonlocal names) replaced by v0, v1, ... in order of first binding (source order).  Parameters of
-    the function itself keep their names (they are API: the adapter passes them as keywords).  The docstring is dropped."""
+class _Strip(ast.NodeTransformer):
+    """H1: what a harmless edit may change is removed before anything is compared: type annotations (arguments, return,
+    `x: T = v` becomes `x = v`, a bare `x: T` disappears) and the TEXT of messages (arguments of the exception constructed in a
+    `raise`, of print / warnings.warn / logging calls). The exception TYPE and the fact that something is printed stay."""
+    MSG_FUNCS = ("print", "warnings.warn", "warn", "logging.info", "logging.warning", "logging.error", "logging.debug",
+                 "logger.info", "logger.warning", "logger.error", "logger.debug")
+
+    def visit_arg(self, n):
+        n.annotation = None
+        return n
+
+    def visit_FunctionDef(self, n):
+        n.returns = None
+        self.generic_visit(n)
+        if not n.body:
+            n.body = [ast.Pass()]
+        return n
+
+    def visit_AnnAssign(self, n):
+        self.generic_visit(n)
+        if n.value is None:
+            return None
+        return ast.copy_location(ast.Assign(targets=[n.target], value=n.value), n)
+
+    def visit_Raise(self, n):
+        self.generic_visit(n)
+        if isinstance(n.exc, ast.Call):
+            n.exc = ast.copy_location(ast.Call(func=n.exc.func, args=[], keywords=[]), n.exc)
+        n.cause = None if n.cause is None else n.cause
+        return n
+
+    def visit_Call(self, n):
+        self.generic_visit(n)
+        if core.norm_expr(n.func) in self.MSG_FUNCS:
+            return ast.copy_location(ast.Call(func=n.func, args=[], keywords=[]), n)
+        return n
+
+    def _body(self, stmts):
+        return stmts or [ast.Pass()]
+
+    def visit_If(self, n):
+        self.generic_visit(n)
+        n.body = self._body(n.body)
+        return n
+
+    def visit_For(self, n):
+        self.generic_visit(n)
+        n.body = self._body(n.body)
+        return n
+
+    def visit_While(self, n):
+        self.generic_visit(n)
+        n.body = self._body(n.body)
+        return n
+
+    def visit_With(self, n):
+        self.generic_visit(n)
+        n.body = self._body(n.body)
+        return n
+
+
+def _mentions(st, name):
+    for x in ast.walk(st):
+        if isinstance(x, ast.Name) and x.id == name:
+            return True
+        if isinstance(x, (ast.Nonlocal, ast.Global)) and name in x.names:
+            return True
+        if isinstance(x, ast.arg) and x.arg == name:
+            return True
+        if isinstance(x, (ast.FunctionDef, ast.AsyncFunctionDef)) and x.name == name:
+            return True
+    return False
+
+
+def _is_const_init(st):
+    return isinstance(st, ast.Assign) and len(st.targets) == 1 and isinstance(st.targets[0], ast.Name) and isinstance(st.value, ast.Constant)
+
+
+def _hoist_constants(body):
+    """H2: `name = <literal constant>` commutes with every neighbouring statement that does not mention `name`; each such
+    initialisation is moved up as far as that allows (original relative order among themselves), so that swapping two independent
+    initialisations gives the same canonical body."""
+    body = list(body)
+    for i in range(len(body)):
+        st = body[i]
+        if _is_const_init(st):
+            j = i
+            while j > 0 and not _mentions(body[j - 1], st.targets[0].id) and not _is_const_init(body[j - 1]):
+                j -= 1
+            if j != i:
+                body.insert(j, body.pop(i))
+    return body
+
+
+def _stripped(fn):
+    """deep copy without docstring, annotations and message texts, constant initialisations hoisted (names untouched)"""
     fn = _copy0.deepcopy(fn)
+    if fn.body and isinstance(fn.body[0], ast.Expr) and isinstance(fn.body[0].value, ast.Constant) and isinstance(fn.body[0].value.value, str):
+        fn.body = fn.body[1:] or [ast.Pass()]
+    fn = _Strip().visit(fn)
+    fn.body = _hoist_constants(fn.body)
+    ast.fix_missing_locations(fn)
+    return fn
+
+
+def _alpha(fn, rolefn=None):
+    """deep copy of a FunctionDef in canonical form (G5 / H1 / H2):
+    * the docstring, type annotations and message texts are dropped (`_Strip`);
+    * constant initialisations are hoisted (`_hoist_constants`);
+    * every LOCAL name (assigned names, loop targets, nested functions and their parameters, nonlocal names) is replaced:
+      names with a ROLE (`rolefn(stripped function)`: original name -> canonical name, found structurally) get that name; a name that is
+      only ever bound and never read (a discard such as `_`, whatever it is called) becomes `_` at every occurrence, each one on
+      its own; all others become v<k> in order of their first BINDING occurrence (source order, after hoisting).
+    Parameters of the function itself keep their names (they are API: the adapter passes them as keywords)."""
+    fn = _stripped(fn)
+    roles = rolefn(fn) if rolefn else None
     params = {a.arg for a in fn.args.args + fn.args.kwonlyargs + fn.args.posonlyargs}
     if fn.args.vararg:
         params.add(fn.args.vararg.arg)
     if fn.args.kwarg:
         params.add(fn.args.kwarg.arg)
-    binds = []
-    for n in ast.walk(fn):
-        if n is fn:
+    binds, loads = [], set()
+    order = {id(st): i for i, st in enumerate(fn.body)}
+
+    def pos(n, top):
+        return (top, getattr(n, "lineno", 0), getattr(n, "col_offset", 0))
+    for top, st in enumerate(fn.body):
+        for n in ast.walk(st):
+            if isinstance(n, ast.Name) and isinstance(n.ctx, ast.Store):
+                binds.append((pos(n, top), n.id))
+            elif isinstance(n, ast.Name):
+                loads.add(n.id)
+            elif isinstance(n, (ast.FunctionDef, ast.AsyncFunctionDef)):
+                binds.append((pos(n, top), n.name))
+                for a in n.args.args + n.args.kwonlyargs + n.args.posonlyargs:
+                    binds.append((pos(a, top), a.arg))
+            elif isinstance(n, (ast.Nonlocal, ast.Global)):
+                loads.update(n.names)
+    ren = dict(roles or {})
+    taken = set(ren.values())
+    k = 0
+    for _, name in sorted(binds):
+        if name in params or name in ren:
             continue
-        if isinstance(n, ast.Name) and isinstance(n.ctx, ast.Store):
-            binds.append((n.lineno, n.col_offset, n.id))
-        elif isinstance(n, (ast.FunctionDef, ast.AsyncFunctionDef)):
-            binds.append((n.lineno, n.col_offset, n.name))
-            for a in n.args.args + n.args.kwonlyargs + n.args.posonlyargs:
-                binds.append((a.lineno, a.col_offset, a.arg))
-    ren = {}
-    for _, _, name in sorted(binds):
-        if name not in params and name not in ren:
-            ren[name] = f"v{len(ren)}"
+        if name not in loads:
+            ren[name] = "_"
+            continue
+        while f"v{k}" in taken:
+            k += 1
+        ren[name] = f"v{k}"; taken.add(f"v{k}")
     for n in ast.walk(fn):
         if isinstance(n, ast.Name) and n.id in ren:
             n.id = ren[n.id]
@@ -70,14 +196,13 @@ def _alpha(fn):
                     a.arg = ren[a.arg]
         elif isinstance(n, (ast.Nonlocal, ast.Global)):
             n.names = [ren.get(x, x) for x in n.names]
-    if fn.body and isinstance(fn.body[0], ast.Expr) and isinstance(fn.body[0].value, ast.Constant) and isinstance(fn.body[0].value.value, str):
-        fn.body = fn.body[1:] or [ast.Pass()]
     return fn
 
 
 def _body_digest(fn):
-    """digest of the whole normalised body (statement kinds + expressions, signature with defaults, decorators);
-    insensitive to comments, docstring, layout and names of locals; any added / removed / changed statement changes it"""
+    """digest of the whole canonical body (`_alpha`: statement kinds + expressions, signature with defaults, decorators);
+    insensitive to comments, docstring, layout, names of locals, type annotations, message texts and the position of independent
+    constant initialisations; any other added / removed / changed statement changes it"""
     a = _alpha(fn)
     return _hashlib.sha1(ast.dump(a, annotate_fields=True, include_attributes=False).encode()).hexdigest()[:16]
 
@@ -86,6 +211,9 @@ BODY_FUNCS = ["Motl.__init__", "Motl.create_empty_motl_df", "Motl.check_df_corre
               "Motl.get_unique_values", "Motl.get_motl_subset", "Motl.remove_feature", "Motl.split_by_feature", "Motl.get_motl_intersection",
               "Motl.drop_duplicates", "Motl.merge_and_renumber", "Motl.merge_and_drop_duplicates", "Motl.renumber_particles",
               "Motl.renumber_objects_sequentially", "EmMotl.__init__"]
+
+
+SUBCLASSES = ["EmMotl", "StopgapMotl", "RelionMotl", "DynamoMotl"]
 
 
 def _signature(fn):
@@ -353,6 +481,65 @@ def loop_objects(src):
     return dict(groupKey=key, groupOrder=order, codes=codes, startUpdate=upd, reset=reset, writesBack=bool(writes))
 
 
+def _names_in(n):
+    return {x.id for x in ast.walk(n) if isinstance(x, ast.Name)}
+
+
+def _merge_roles(fn, qual):
+    """the locals of the merging loop by ROLE (H2): the loop variable; the ACCUMULATED frame = target of `<name> = pd.concat([...])`
+    inside the loop; the LOADED list = the name whose `.df` is concatenated to it; the RUNNING MAXIMUM = the name initialised with a
+    literal constant before the loop and assigned again inside it; the list MINIMUM = the remaining name assigned inside the loop
+    that is compared with the running maximum; the MERGED list = the name bound after the loop to a call taking the accumulated frame."""
+    loop = _top_for(fn, qual)
+    if not isinstance(loop.target, ast.Name):
+        raise core.AnchorMissing(f"{qual}: the loop target `{ast.unparse(loop.target)}` is not a plain variable")
+    lv = loop.target.id
+    inloop = [n for n in ast.walk(loop) if isinstance(n, ast.Assign) and len(n.targets) == 1 and isinstance(n.targets[0], ast.Name)]
+    cats = [n for n in inloop if isinstance(n.value, ast.Call) and core.norm_expr(n.value.func) == "pd.concat"]
+    cat = _one(cats, f"{qual}: `<accumulated frame> = pd.concat([...])` inside the loop")
+    acc = cat.targets[0].id
+    parts = [e for e in (cat.value.args[0].elts if cat.value.args and isinstance(cat.value.args[0], (ast.List, ast.Tuple)) else [])
+             if isinstance(e, ast.Attribute) and e.attr == "df" and isinstance(e.value, ast.Name)]
+    loaded = _one(parts, f"{qual}: `{ast.unparse(cat)}` does not append `<loaded list>.df`").value.id
+    before = [st for st in fn.body[:fn.body.index(loop)] if _is_const_init(st)]
+    assigned = [n.targets[0].id for n in inloop]
+    runs = [st.targets[0].id for st in before if st.targets[0].id in assigned]
+    runmax = _one(runs, f"{qual}: one running maximum (initialised with a constant before the loop, assigned again inside it)")
+    rest = [nme for nme in dict.fromkeys(assigned) if nme not in (acc, loaded, runmax, lv)]
+    cmps = [n for n in ast.walk(loop) if isinstance(n, ast.Compare) and len(n.ops) == 1 and runmax in _names_in(n)]
+    mins = [nme for nme in rest if any(nme in _names_in(c) for c in cmps)]
+    minv = _one(mins, f"{qual}: one list minimum compared with the running maximum `{runmax}`")
+    after = [st for st in fn.body[fn.body.index(loop) + 1:] if isinstance(st, ast.Assign) and len(st.targets) == 1 and isinstance(st.targets[0], ast.Name)
+             and isinstance(st.value, ast.Call) and [core.norm_expr(a) for a in st.value.args] == [acc]]
+    merged = _one(after, f"{qual}: `<merged list> = <class>({acc})` after the loop").targets[0].id
+    roles = {acc: "v0", runmax: "v1", lv: "v2", loaded: "v3", minv: "v4", merged: "v5"}
+    if len(roles) != 6:
+        raise core.AnchorMissing(f"{qual}: one local plays two roles: {roles}")
+    return roles
+
+
+def _merge_alpha(src, qual):
+    return _alpha(src.find(REL, qual), lambda f: _merge_roles(f, qual))
+
+
+def _intersect_alpha(src):
+    """get_motl_intersection: v0 / v1 = the locals loaded from the first / second operand (the parameters motl1 / motl2), v2 = the
+    selected frame that is returned -- by role, whatever they are called and in whichever order the two loads are written"""
+    return _alpha(src.find(REL, "Motl.get_motl_intersection"), _intersect_roles)
+
+
+def _intersect_roles(fn):
+    p1, p2 = fn.args.args[1].arg, fn.args.args[2].arg
+    asg = [st for st in fn.body if isinstance(st, ast.Assign) and len(st.targets) == 1 and isinstance(st.targets[0], ast.Name)]
+    a = _one([st for st in asg if p1 in _names_in(st.value)], f"get_motl_intersection: one local loaded from `{p1}`").targets[0].id
+    b = _one([st for st in asg if p2 in _names_in(st.value)], f"get_motl_intersection: one local loaded from `{p2}`").targets[0].id
+    sel = [st.targets[0].id for st in asg if any(_call_attr(n, "isin") or _call_attr(n, "merge") for n in ast.walk(st.value))]
+    roles = {a: "v0", b: "v1"}
+    if len(sel) == 1 and sel[0] not in roles:
+        roles[sel[0]] = "v2"
+    return roles
+
+
 def extract(src):
     """returns dict of extracted items; every item goes through src.anchor (missing => recorded, never guessed)"""
     g = {}
@@ -381,7 +568,7 @@ def extract(src):
 
     # ---- get_motl_intersection: rows of m1 whose id isin m2
     def inter():
-        fn = _alpha(src.find(REL, "Motl.get_motl_intersection"))
+        fn = _intersect_alpha(src)
         calls = [n for n in ast.walk(fn) if isinstance(n, ast.Call) and isinstance(n.func, ast.Attribute) and n.func.attr in ("isin", "merge")]
         c = _one(calls, "get_motl_intersection: one isin/merge call")
         if c.func.attr != "isin":
@@ -396,8 +583,8 @@ def extract(src):
     g["inter"] = src.anchor("get_motl_intersection:selection", inter)
 
     def inter_loads():
-        # the two operands are the first two locals bound (v0, v1 after alpha-normalisation), whatever they are called
-        fn = _alpha(src.find(REL, "Motl.get_motl_intersection"))
+        # the two operands by role (v0 <- motl1, v1 <- motl2), whatever they are called
+        fn = _intersect_alpha(src)
         out = {}
         for n in ast.walk(fn):
             if isinstance(n, ast.Assign) and isinstance(n.targets[0], ast.Name) and n.targets[0].id in ("v0", "v1"):
@@ -408,7 +595,7 @@ def extract(src):
     g["inter_loads"] = src.anchor("get_motl_intersection:operands", inter_loads)
 
     def inter_ret():
-        fn = _alpha(src.find(REL, "Motl.get_motl_intersection"))
+        fn = _intersect_alpha(src)
         r = _one([n for n in ast.walk(fn) if isinstance(n, ast.Return)], "get_motl_intersection: one return")
         return core.norm_expr(r.value)
     g["inter_ret"] = src.anchor("get_motl_intersection:return", inter_ret)
@@ -457,18 +644,18 @@ def extract(src):
     g["dd_keep"] = src.anchor("drop_duplicates:keep", dd_keep)
 
     # ---- merge_and_renumber / merge_and_drop_duplicates (same shifting loop)
-    # locals after alpha-normalisation (order of first binding): accumulated frame v0, running maximum v1, loop variable v2,
-    # loaded list v3, its minimum v4, merged list v5 -- names in the source are free
+    # locals are identified by the ROLE they play (`_merge_roles`), never by their name or by the position of their first binding:
+    # accumulated frame v0, running maximum v1, loop variable v2, loaded list v3, its minimum v4, merged list v5
     for tag, qual in (("mr", "Motl.merge_and_renumber"), ("md", "Motl.merge_and_drop_duplicates")):
         def shift_cmp(qual=qual):
-            fn = _alpha(src.find(REL, qual))
+            fn = _merge_alpha(src, qual)
             ifs = [n for n in ast.walk(fn) if isinstance(n, ast.If) and isinstance(n.test, ast.Compare) and len(n.test.ops) == 1
                    and core.norm_expr(n.test.left) == "v4" and core.norm_expr(n.test.comparators[0]) == "v1"]
             return CMP[type(_one(ifs, f"{qual}: if <list minimum> <op> <running maximum>").test.ops[0])]
         g[tag + "_cmp"] = src.anchor(f"{qual.split('.')[1]}:feature_min<op>feature_add", shift_cmp)
 
         def shift_expr(qual=qual):
-            fn = _alpha(src.find(REL, qual))
+            fn = _merge_alpha(src, qual)
             ifs = [n for n in ast.walk(fn) if isinstance(n, ast.If) and isinstance(n.test, ast.Compare) and core.norm_expr(n.test.left) == "v4"]
             st = _one(ifs, f"{qual}: shift if")
             if st.orelse:
@@ -480,7 +667,7 @@ def extract(src):
         g[tag + "_shift"] = src.anchor(f"{qual.split('.')[1]}:shift-assignment", shift_expr)
 
         def minmax(qual=qual):
-            fn = _alpha(src.find(REL, qual))
+            fn = _merge_alpha(src, qual)
             out = {}
             for n in ast.walk(fn):
                 if isinstance(n, ast.Assign):
@@ -492,7 +679,7 @@ def extract(src):
         g[tag + "_minmax"] = src.anchor(f"{qual.split('.')[1]}:feature_min/feature_add", minmax)
 
         def tail(qual=qual):
-            fn = _alpha(src.find(REL, qual))
+            fn = _merge_alpha(src, qual)
             calls = []
             for n in ast.walk(fn):
                 if isinstance(n, ast.Call) and isinstance(n.func, ast.Attribute) and core.norm_expr(n.func.value) == "v5":
@@ -503,7 +690,7 @@ def extract(src):
         def loadcall(qual=qual):
             # how every element of motl_list becomes the list that is shifted: must be a fresh object (cls.load copies a Motl
             # and re-loads a DataFrame) -- working on the caller's own object would shift the caller's object numbers in place
-            fn = _alpha(src.find(REL, qual))
+            fn = _merge_alpha(src, qual)
             vals = [core.norm_expr(n.value) for n in ast.walk(fn) if isinstance(n, ast.Assign) and isinstance(n.targets[0], ast.Name) and n.targets[0].id == "v3"]
             return "|".join(vals)
         g[tag + "_load"] = src.anchor(f"{qual.split('.')[1]}:input-is-loaded", loadcall)
@@ -511,6 +698,38 @@ def extract(src):
     # ---- signatures (keyword names and defaults the adapter and the statement rely on) and whole-body digests
     g["signatures"] = src.anchor("signatures", lambda: [f"{q.split('.')[1]}({_signature(src.find(REL, q))})" for q in BODY_FUNCS[4:15]])
     g["bodies"] = src.anchor("whole-body-digests", lambda: [f"{q}:{_body_digest(src.find(REL, q))}" for q in BODY_FUNCS])
+
+    # ---- subclasses (the operations are inherited; a list a user holds is usually an EmMotl / RelionMotl / ... instance)
+    def overrides():
+        """every class of the module other than Motl that (re)defines one of the anchored methods: the anchors above describe
+        Motl.<method> only, so an override in a subclass would be code the model knows nothing about"""
+        names = {q.split(".")[1] for q in BODY_FUNCS if q.startswith("Motl.") and not q.endswith("__init__")}
+        out = []
+        for c in src.tree(REL).body:
+            if isinstance(c, ast.ClassDef) and c.name != "Motl":
+                for st in ast.walk(c):
+                    if isinstance(st, (ast.FunctionDef, ast.AsyncFunctionDef)) and st.name in names and st in c.body:
+                        out.append(f"{c.name}.{st.name}")
+                    elif isinstance(st, ast.Assign) and st in c.body:
+                        out += [f"{c.name}.{t.id}" for t in st.targets if isinstance(t, ast.Name) and t.id in names]
+        return sorted(out)
+    g["overrides"] = src.anchor("subclasses:overrides-of-anchored-methods", overrides)
+
+    def ctors():
+        """what each subclass constructor does with a DataFrame: `cls(<merged frame>)` in the class methods relies on
+        `self.check_df_type(frame)` (a frame with the 20 columns is taken as it is, index reset, missing values filled)"""
+        out = []
+        for cname in SUBCLASSES:
+            fn = src.find(REL, f"{cname}.__init__")
+            ap = fn.args.args[1].arg
+            hits = []
+            for n in ast.walk(fn):
+                if isinstance(n, ast.If) and isinstance(n.test, ast.Call) and core.norm_expr(n.test.func) == "isinstance" and len(n.test.args) == 2 \
+                        and core.norm_expr(n.test.args[0]) == ap and core.norm_expr(n.test.args[1]) == "pd.DataFrame":
+                    hits.append(";".join(core.norm_expr(x) for x in n.body).replace(ap, "<frame>"))
+            out.append(f"{cname}:" + _one(hits, f"{cname}.__init__: one `isinstance({ap}, pd.DataFrame)` branch"))
+        return out
+    g["ctors"] = src.anchor("subclasses:constructor-dataframe-branch", ctors)
 
     # ---- renumber_particles
     def rp():
@@ -673,6 +892,9 @@ def renumberParticlesFirst : Nat := {nat("rp_start")}
 def renumberObjectsDefaultStart : Nat := {nat("ro_default")}
 def objLoop : ObjLoop := {obj_()}
 -- signatures (parameter names and literal defaults) and digests of the whole alpha-normalised bodies
+-- subclasses: overrides of the anchored methods (none documented), what each constructor does with a DataFrame
+def subclassOverrides : List String := {strs("overrides") if isinstance(g.get("overrides"), list) else '["<missing>"]'}
+def subclassConstructors : List String := {strs("ctors")}
 def signatures : List String := {strs("signatures")}
 def bodyDigests : List String := {strs("bodies")}
 end CryoCat.Gen.C08
@@ -701,9 +923,15 @@ RULE = ("histories: a base particle list of 0..200 rows (key fields tomo_id/obje
         "renumber_objects_sequentially; arguments are chosen against a pure-Python simulation of the current table so that most ops hit "
         "existing values (requested values as list / tuple / ndarray / scalar, repeated and absent values, empty value lists; second operands of "
         "intersection repeat ids and have up to 45 rows; merge inputs are Motl objects or bare DataFrames, some empty, 1..5 per call). "
-        "Four streams: plain (62%); nan-key (12%): NaN in ONE key field (tomo_id / object_id / subtomo_id / class / geom1) which is then used as the "
+        "Receiver classes (M-5): the list the history starts from is a Motl / EmMotl / StopgapMotl / RelionMotl / DynamoMotl / Motl.load(frame) instance and "
+        "the class methods (intersection, both merges) are called on each of these classes (42% not the plain Motl); every class but Motl re-loads the frame it is given "
+        "(missing values filled, row labels reset), so the REAL table after construction is the table the history is judged from. H3: the base frame carries shifted or "
+        "duplicated row labels in 16% of the cases. An op that would grow the table beyond 400 rows is not taken (len(values) == len(rows) only for <= 24 rows). "
+        "Five streams: plain (56%); nan-decision (7%): NaN in a DECISION column (score / geom2 / subtomo_mean) used by drop_duplicates -- a row without a value is "
+        "never the best one (pandas sorts missing values last); nan-key (12%): NaN in ONE key field (tomo_id / object_id / subtomo_id / class / geom1) which is then used as the "
         "feature of split / subset / remove (NaN also among the requested values) or by renumber_objects_sequentially -- where the real code then "
-        "behaves exactly as the open known finding C08-K1 describes the case is classified, every other deviation is a violation; large-ids (14%): "
+        "behaves exactly as the open known findings C08-K1 / K2 / K3 describe the step is classified AND THE FOLLOWING STEPS ARE STILL JUDGED against the implementation's "
+        "actual tables (L-11), every other deviation is a violation; large-ids (14%): "
         "adjacent particle / object numbers >= 1e5 and scores / geom values differing in the 6th digit, requested in subset / remove; g2-cache (12%): "
         "split by F, rewrite F without changing the number of rows (renumber), split by F again ON THE SAME INSTANCE. "
         "G1: keywords whose value equals the signature default are omitted in 45-50% of the calls (feature_id of subset / intersection, the three of "
@@ -719,10 +947,13 @@ ASSUMPTIONS = [
     "key comparisons are IEEE `==` (the statement's 'matching'): a missing key matches nothing. subset / remove / intersection are exact under it "
     "(subset_spec_beq, remove_spec_beq need no reflexivity); split_partition, dropDup_spec (every id survives) and renumberObjects_spec need `=` to be "
     "reflexive on the keys (split_drops_irreflexive_rows, renumberObjects_irreflexive_rows show what happens otherwise = open known finding C08-K1)",
-    "NEW classes found by the hardening pass, reported to the integrator and generated only once registered as open: C08-K2 (drop_duplicates / "
-    "merge_and_drop_duplicates collapse all rows with a missing id into one row), C08-K3 (a missing object_id in a Motl input of a merge makes Python's "
-    "min()/max() order-dependent: inputs are not shifted and object numbers collide). Until then such a list reaches a merge only as a bare DataFrame "
-    "(re-loaded, missing values filled) and drop_duplicates is not called on a column holding NaN; NaN never occurs in a decision column",
+    "reading of the statement with missing values (one reading for the Lean checkers stepClausesM, the Python evaluators and classify()): a missing id "
+    "duplicates nothing (all rows without an id survive drop_duplicates: C08-K2 is reported only when at least two such rows actually collapse into one); a "
+    "missing decision value is never the best one (a survivor without one is right only if no row of its id has one; pandas sort_values puts missing values "
+    "last whatever the direction); a missing object number carries no offset and collides with nothing (C08-K3 is reported only on an actual collision / "
+    "lost grouping). While C08-K2 / K3 are not registered as open such lists are steered around (a merge gets them as a bare DataFrame)",
+    "a class method called on a class other than Motl returns cls(<frame>) -> check_df_type: missing values of EVERY input may come back filled (Op.mayFill via "
+    "the df tags on the wire); such a receiver is generated only when no Motl input has a missing key, so filling before or after the numbering is the same",
     "numpy float64 ==, <, + on the generated key values (small integers, halves, integers < 2^24, dyadic fractions) = Lean Float ==, <, + (IEEE binary64 both; compared bit for bit on every case)",
     "Motl.load(DataFrame) replaces missing values by 0.0 (check_df_type: fillna(0.0)); get_motl_intersection and merge inputs given as DataFrames therefore "
     "return 0.0 where a surviving row had NaN. ONLY these operations may do so (Op.mayFill; step_rows / history_rows / check_history_rows are stated with opFill / histFill); "
@@ -731,11 +962,14 @@ ASSUMPTIONS = [
     "lexicographic sort; drop_duplicates keeps the first; groupby iterates its keys in ascending order; isin is exact float membership",
     "the whole-body digests (bodies_documented) are ast.dump digests under the pinned Python 3.12; another Python version may need them regenerated",
 ]
-TRUSTED = ["spec findings are decided by the Lean verified checkers (Model/C08_Check.lean; check_*_sound / check_*_complete / check_history_rows) on the REAL "
-           "output of every op, or by evaluations that involve neither the model nor a sub-result of the implementation: an exception with a frame inside "
-           "cryocat/, a text cell in a numeric field, a caller-owned argument differing from its picture taken before the call; trusted around them: the adapter "
-           "that reads a frame into IEEE bit patterns by column NAME (dtypes, text cells, index state and column order are recorded beside it), the driver's cell "
-           "comparison (same bit pattern, one pattern for every NaN) standing for equality (hypothesis heqv)",
+TRUSTED = ["spec findings are decided by the Lean verified checkers on the REAL output of every op -- by the EXECUTED PROVED INSTANCE (Model/C08_Cell.lean: cells decoded "
+           "from their bit patterns into exact rationals, NaN -> `missing`; theorems check_step_iff_executed / check_run_iff_executed / check_history_rows_executed, no "
+           "hypothesis left) whenever no key cell of the step is missing (`proved` in the verdict; a disagreement with the Float run is the corr finding "
+           "checker-instances-disagree), otherwise by the missing-value-aware Float checkers stepClausesM, which no theorem covers beyond dropDupClausesM_no_missing and "
+           "the concrete witnesses -- or by an exception with a frame inside cryocat/ (classified by exception TYPE and operation, never by message text). A text cell in a "
+           "numeric field and a caller-owned argument edited in place are corr (the statement is silent about them). Trusted around the checkers: the adapter that reads a "
+           "frame into IEEE bit patterns by column NAME (dtypes, text cells, index state and column order are recorded beside it); decodeBits (pure Nat arithmetic on the "
+           "pattern; its injectivity -- a double is a dyadic rational, the code 1/3 of `missing` is not -- is argued in Model/C08_Cell.lean, not proved)",
            "an exception without a frame inside cryocat/ (harness / third-party) is reported as corr `harness-or-library-raised`, never as a spec finding",
            "offset certificates for merge_and_drop_duplicates are computed in Python but NOT trusted (the checker verifies them; a wrong one can only cause a rejection)",
            "the pure-Python clause evaluators are a cross-check only (a disagreement with the Lean checker is reported as a corr finding); the simulations used by "
@@ -828,8 +1062,18 @@ def py_merge(inputs):
     return out
 
 
+def refills(op):
+    """the receiver class of a class method re-loads the frame it returns (`cls(<frame>)` -> check_df_type -> fillna) unless it is
+    the plain Motl: every input may then come back with its missing values filled"""
+    return op.get("cls", "Motl") != "Motl"
+
+
 def inputs_of(op, cur):
-    return [(x["df"], x["rows"]) for x in op["before"]] + [(op["self_df"], cur)] + [(x["df"], x["rows"]) for x in op["after"]]
+    """(may come back filled?, rows) per input of a merge: an input handed over as a bare DataFrame is re-loaded before the loop;
+    with a receiver class other than Motl the merged frame is re-loaded at the end (generated only when no Motl input has a
+    missing key, so that filling first or last makes no difference to the numbers)"""
+    rf = refills(op)
+    return [(x["df"] or rf, x["rows"]) for x in op["before"]] + [(op["self_df"] or rf, cur)] + [(x["df"] or rf, x["rows"]) for x in op["after"]]
 
 
 def k1_split_parts(rows, f):
@@ -986,11 +1230,19 @@ def _values(rng, cur, f, doms):
     if kind == "scalar":
         vs = [rng.choice(pool)] if rng.random() < 0.85 else [97.0]
     else:
-        n = rng.choice([0, 1, 1, 2, 2, 3, 4]) if rng.random() < 0.9 else len(cur)  # len(values) == len(rows): the D20 shape
+        # len(values) == len(rows) is the D20 shape; it squares the table, so only for short lists (L-4)
+        n = len(cur) if (rng.random() < 0.1 and len(cur) <= 24) else rng.choice([0, 1, 1, 2, 2, 3, 4])
         vs = [rng.choice(pool) if rng.random() < 0.85 else float(rng.choice([97, 0, -1, 2.5])) for _ in range(n)]
         if nanreq:
             vs.insert(rng.randrange(len(vs) + 1), float("nan"))
     return kind, [fb(v) for v in vs]
+
+
+CLASSES = ["Motl", "EmMotl", "StopgapMotl", "RelionMotl", "DynamoMotl"]
+
+
+def _pick_cls(rng):
+    return rng.choices(CLASSES, [58, 14, 9, 9, 10])[0]
 
 
 def _gen_op(rng, cur, doms, id_pool, tier, ctx):
@@ -1028,14 +1280,13 @@ def _gen_op(rng, cur, doms, id_pool, tier, ctx):
             maxn = (25 if rng.random() < 0.6 else 45) if tier != "thorough" else 60
             other, oid = _other_list(rng, cur, doms, id_pool, maxn), f"o{len(ctx['pool'])}"
             ctx["pool"].append(dict(kind="other", rows=other, oid=oid))
-        return dict(op="intersect", f=f, other=other, oid=oid, omit_f=(f == "subtomo_id" and rng.random() < 0.5), twice=twice)
+        return dict(op="intersect", f=f, other=other, oid=oid, omit_f=(f == "subtomo_id" and rng.random() < 0.5), twice=twice, cls=_pick_cls(rng))
     if kind == "dropdup":
         dup = rng.choice(["subtomo_id", "subtomo_id", "subtomo_id", "object_id", "tomo_id", "class"])
         if has_nan(cur, dup) and "C08-K2" not in ctx["open"]:
             dup = next((d for d in ["subtomo_id", "tomo_id", "class", "object_id"] if not has_nan(cur, d)), "geom2")
-        dec = rng.choice([f for f in ["score", "score", "score", "geom1", "geom2", "subtomo_mean"] if f != dup])
-        if has_nan(cur, dec):
-            dec = "score" if dup != "score" else "geom2"
+        decf = ctx.get("decf")
+        dec = rng.choice([f for f in ["score", "score", "score", "geom1", "geom2", "subtomo_mean"] + ([decf] * 6 if decf else []) if f != dup])
         asc = rng.random() < 0.35
         # G1: omit keywords whose value is the signature default
         omit = [k for k, isdef in (("dup", dup == "subtomo_id"), ("dec", dec == "score"), ("asc", not asc)) if isdef and rng.random() < 0.45]
@@ -1058,9 +1309,13 @@ def _gen_op(rng, cur, doms, id_pool, tier, ctx):
             self_df = True
         if kind == "merge_dropdup" and has_nan(cur, "subtomo_id") and "C08-K2" not in ctx["open"]:
             self_df = True
-        if kind == "merge_dropdup" and has_nan(cur, "score"):
-            self_df = True
-        return dict(op=kind, before=[inp() for _ in range(nb)], after=[inp() for _ in range(na)], self_df=self_df, twice=twice)
+        op = dict(op=kind, before=[inp() for _ in range(nb)], after=[inp() for _ in range(na)], self_df=self_df, twice=twice)
+        # receiver class (M-5): the class methods are inherited; cls(<merged frame>) re-loads the frame for every class but Motl.
+        # With a missing KEY in a Motl input the order of filling and numbering matters (classes K2 / K3): plain Motl then.
+        keyed = [r for df, rows in [(x["df"], x["rows"]) for x in op["before"] + op["after"]] + [(self_df, cur)] if not df for r in rows]
+        if not any(r[IDX[f]] == NANB for r in keyed for f in ("object_id", "subtomo_id", "score")):
+            op["cls"] = _pick_cls(rng)
+        return op
     if kind == "renumber_particles":
         return dict(op=kind)
     return dict(op="renumber_objects", start=fb(float(rng.choice([1, 1, 1, 0, 5, 10, 100]))), default=rng.random() < 0.3)
@@ -1068,7 +1323,7 @@ def _gen_op(rng, cur, doms, id_pool, tier, ctx):
 
 def gen_case(rng, tier):
     n = _size(rng, tier)
-    stream = rng.choices(["plain", "nan-key", "g2-cache", "large-ids"], [0.62, 0.12, 0.12, 0.14])[0]
+    stream = rng.choices(["plain", "nan-key", "nan-decision", "g2-cache", "large-ids"], [0.56, 0.12, 0.07, 0.11, 0.14])[0]
     big = stream == "large-ids"
     doms = {f: _domain(rng, f, big) for f in KEY_FIELDS if f != "subtomo_id"}
     pool_n = max(1, int(max(n, 4) * rng.choice([0.5, 0.8, 1.5])))
@@ -1077,10 +1332,22 @@ def gen_case(rng, tier):
         id_pool = rng.sample(range(lo, lo + 2 * pool_n + 1), pool_n)
     else:
         id_pool = rng.sample(range(1, 4 * pool_n + 1), pool_n)   # unsorted, with gaps; rows draw with repetition
-    if stream in ("nan-key", "g2-cache") and n < 4:
+    if stream in ("nan-key", "nan-decision", "g2-cache") and n < 4:
         n = rng.randint(4, 30)
     base = _rows(rng, n, doms, id_pool)
-    ctx = dict(nanf=None, big=big, pool=[], open=_open_ids())
+    ctx = dict(nanf=None, decf=None, big=big, pool=[], open=_open_ids())
+    # M-5: the class of the list the history starts from (Motl.load(frame) returns an EmMotl); every class but the plain Motl
+    # fills missing values when it is constructed, so the streams that are about missing keys start from a plain Motl
+    cls0 = "Motl" if stream in ("nan-key", "nan-decision") else rng.choices(CLASSES + ["load"], [56, 10, 7, 7, 8, 12])[0]
+    # H3: row labels a user naturally has (Motl(frame) keeps them): default / shifted / duplicated
+    index = rng.choices(["default", "shifted", "duplicated"], [0.84, 0.08, 0.08])[0]
+    if stream == "nan-decision" and base:
+        # a missing DECISION value (score / geom2 / subtomo_mean): pandas sorts missing values last whatever the direction, so a
+        # row without a score is kept only if no row of its id has one (M-4)
+        f = rng.choice(["score", "score", "geom2", "subtomo_mean"])
+        ctx["decf"] = f
+        for i in rng.sample(range(len(base)), max(1, min(len(base), rng.randint(1, 1 + len(base) // 3)))):
+            base[i][IDX[f]] = NANB
     if stream == "nan-key" and base:
         # a missing value in a KEY field ("repeated and missing field values"): tomo_id / object_id / subtomo_id or another
         # field used as the feature of subset / remove / split
@@ -1094,14 +1361,20 @@ def gen_case(rng, tier):
     nops = rng.randint(1, 10)
     if tier == "thorough" and rng.random() < 0.05:
         nops = rng.randint(11, 40)
-    ops, cur = [], base
+    ops, cur = [], ([list(fz(r)) for r in base] if cls0 != "Motl" else base)
 
     def push(op):
+        """simulate first; an op that would grow the table beyond 400 rows is not taken (L-4: the guard used to look at the table
+        only after the NEXT op had been pushed)"""
         nonlocal cur
         if op["op"] == "renumber_objects" and op.get("default"):
             op["start"] = fb(1.0)
+        new = py_step(cur, op)
+        if len(new) > 400:
+            return False
         ops.append(op)
-        cur = py_step(cur, op)
+        cur = new
+        return True
 
     if stream == "nan-key" and rng.random() < 0.75:
         # use the field with the missing key early, while the rows that hold it are still in the list
@@ -1140,14 +1413,25 @@ def gen_case(rng, tier):
             push(dict(op="renumber_particles"))
         k = len(k1_split_parts(cur, f))
         push(dict(op="split", f=f, pick=rng.randrange(k) if k else 0, keep=rng.random() < 0.5, twice=False))
-    while len(ops) < nops:
+    if stream == "nan-decision" and rng.random() < 0.7:
+        f = ctx["decf"]
+        dup = rng.choice(["subtomo_id", "subtomo_id", "tomo_id", "object_id", "class"])
+        asc = rng.random() < 0.4
+        push(dict(op="dropdup", dup=dup, dec=f, asc=asc, omit=[k for k, d in (("dup", dup == "subtomo_id"), ("dec", f == "score"), ("asc", not asc)) if d and rng.random() < 0.45]))
+    tries = 0
+    while len(ops) < nops and tries < 4 * nops + 8:
+        tries += 1
         op = _gen_op(rng, cur, doms, id_pool, tier, ctx)
-        push(op)
+        if not push(op):
+            continue
         if op["op"] in ("remove", "dropdup", "renumber_particles", "renumber_objects") and rng.random() < 0.1:
             push(dict(op))      # the same in-place operation once more on the same instance
-        if len(cur) > 400:
-            break
-    return dict(base=base, cols=cols, ops=ops, stream=stream)
+    case = dict(base=base, cols=cols, ops=ops, stream=stream)
+    if cls0 != "Motl":
+        case["cls0"] = cls0
+    if index != "default":
+        case["index"] = index
+    return case
 
 
 def generate(rng, tier, n):
@@ -1168,6 +1452,13 @@ def shrink(case):
         yield dict(case, ops=ops[:k] + ops[k + 1:])
     if case.get("cols") != FIELDS:
         yield dict(case, cols=list(FIELDS))
+    if case.get("cls0"):
+        yield {k: v for k, v in case.items() if k != "cls0"}
+    if case.get("index"):
+        yield {k: v for k, v in case.items() if k != "index"}
+    for k, op in enumerate(ops):
+        if op.get("cls", "Motl") != "Motl":
+            yield _rep(case, k, {a: b for a, b in op.items() if a != "cls"})
     if len(base) > 1:
         yield dict(case, base=base[: len(base) // 2])
         yield dict(case, base=base[len(base) // 2:])
@@ -1238,10 +1529,14 @@ def _table(df):
     return out
 
 
-def _frame(rows, cols=None):
+def _frame(rows, cols=None, index="default"):
     import pandas as pd
     vals = [[b2f(b) for b in r] for r in rows]
     df = pd.DataFrame(vals, columns=FIELDS, dtype=float) if vals else pd.DataFrame({c: [] for c in FIELDS}, dtype=float)
+    if index == "shifted":          # H3: labels a frame has after a filter elsewhere (gaps, not starting at 0)
+        df.index = [7 + 3 * i for i in range(len(df))]
+    elif index == "duplicated":     # ... or after a concat without ignore_index
+        df.index = [i // 2 for i in range(len(df))]
     return df[cols] if cols else df
 
 
@@ -1288,6 +1583,7 @@ def run_impl(case):
     Motl = cryomotl.Motl
     steps = []
     pool = {}
+    klass = lambda name: getattr(cryomotl, name or "Motl")
 
     def operand(rows, df, oid, key):
         """a caller-owned operand; the same label gives the SAME Python object again (G2)"""
@@ -1301,7 +1597,15 @@ def run_impl(case):
 
     with warnings.catch_warnings(), contextlib.redirect_stdout(io.StringIO()):
         warnings.simplefilter("ignore")
-        m = Motl(_frame(case["base"], case.get("cols")))
+        try:
+            frame0 = _frame(case["base"], case.get("cols"), case.get("index", "default"))
+            cls0 = case.get("cls0", "Motl")
+            m = Motl.load(frame0) if cls0 == "load" else klass(cls0)(frame0)
+        except Exception as e:
+            where = _cryocat_frame(e)
+            return dict(steps=[], init=dict(error=f"{type(e).__name__}: {str(e)[:200]}", where=where))
+        init = _table(m.df)
+        init["type"] = type(m).__name__
         for k, op in enumerate(case["ops"]):
             kind = op["op"]
             rec = {}
@@ -1349,8 +1653,9 @@ def run_impl(case):
                     other = operand(op["other"], False, op.get("oid"), "other")
                     owned = [("motl1", m), ("motl2", other)]
                     before = [_snap(o) for _, o in owned]
+                    K = klass(op.get("cls"))
                     for c in range(ncalls):
-                        res = Motl.get_motl_intersection(m, other) if op.get("omit_f") else Motl.get_motl_intersection(m, other, feature_id=op["f"])
+                        res = K.get_motl_intersection(m, other) if op.get("omit_f") else K.get_motl_intersection(m, other, feature_id=op["f"])
                         if c == 0 and ncalls == 2:
                             rec["first"] = _table(res.df)["rows"]
                     new_m = res
@@ -1371,8 +1676,9 @@ def run_impl(case):
                     owned = [(f"motl_list[{i}]", o) for i, o in enumerate(lst)] + [("self", m)]
                     before = [_snap(o) for _, o in owned]
                     nlist = len(lst)
+                    K = klass(op.get("cls"))
                     for c in range(ncalls):
-                        res = Motl.merge_and_renumber(lst) if kind == "merge_renumber" else Motl.merge_and_drop_duplicates(lst)
+                        res = K.merge_and_renumber(lst) if kind == "merge_renumber" else K.merge_and_drop_duplicates(lst)
                         if c == 0 and ncalls == 2:
                             rec["first"] = _table(res.df)["rows"]
                     if len(lst) != nlist:
@@ -1402,7 +1708,7 @@ def run_impl(case):
             rec.update(_table(m.df))
             rec.setdefault("type", type(m).__name__)
             steps.append(rec)
-    return dict(steps=steps)
+    return dict(steps=steps, init=init)
 
 
 def _wire_op(op):
@@ -1416,8 +1722,9 @@ def _wire_op(op):
     if k == "dropdup":
         return dict(op=k, dup=op["dup"], dec=op["dec"], asc=bool(op["asc"]))
     if k in ("merge_renumber", "merge_dropdup"):
-        strip = lambda xs: [dict(df=bool(x["df"]), rows=x["rows"]) for x in xs]
-        return dict(op=k, before=strip(op["before"]), after=strip(op["after"]), self_df=bool(op["self_df"]))
+        rf = refills(op)
+        strip = lambda xs: [dict(df=bool(x["df"]) or rf, rows=x["rows"]) for x in xs]
+        return dict(op=k, before=strip(op["before"]), after=strip(op["after"]), self_df=bool(op["self_df"]) or rf)
     if k == "renumber_objects":
         return dict(op=k, start=op["start"])
     return dict(op=k)
@@ -1463,13 +1770,22 @@ def _schema_ok(t):
     return sorted(t["cols"]) == sorted(FIELDS)
 
 
+def _start(case, obs):
+    """the REAL table the history starts from: what the constructed list holds (a class other than the plain Motl fills missing
+    values and resets the row labels when it is constructed), else the generated base"""
+    init = obs.get("init") or {}
+    if "rows" in init and _schema_ok(init) and not init.get("text"):
+        return init["rows"]
+    return case["base"]
+
+
 def _plan(case, obs):
     """splits the observed history into the MAIN chain (operations after which the history continues with the returned
     table) and SIDE checks (a split whose parts are only looked at: the same instance continues unchanged, G2).
     Returns (chain, sides, stop): chain = [(k, op, st)], sides = [(k, op, st, real table before)], stop = index of the first
     step that raised / has an unusable table (None if none)."""
     chain, sides, stop = [], [], None
-    prev = case["base"]
+    prev = _start(case, obs)
     for k, (op, st) in enumerate(zip(case["ops"], obs.get("steps", []))):
         if "error" in st:
             stop = k; break
@@ -1501,11 +1817,12 @@ def requests(case, obs):
     then per side split: [2+2i] the model's parts, [3+2i] the checkers on the real parts (base = the REAL table before it)"""
     chain, sides, _ = _plan(case, obs)
     ops = [op for op in case["ops"] if not (op["op"] == "split" and op.get("keep"))]
-    reqs = [dict(op="history", base=case["base"], ops=[_wire_op(o) for o in ops])]
-    prev, recs = case["base"], []
+    base = _start(case, obs)
+    reqs = [dict(op="history", base=base, ops=[_wire_op(o) for o in ops])]
+    prev, recs = base, []
     for k, op, st in chain:
         recs.append(_obs_rec(op, st, prev)); prev = st["rows"]
-    reqs.append(dict(op="check", base=case["base"], ops=[_wire_op(op) for _, op, _ in chain], obs=recs))
+    reqs.append(dict(op="check", base=base, ops=[_wire_op(op) for _, op, _ in chain], obs=recs))
     for k, op, st, before in sides:
         w = dict(_wire_op(op), pick=0)
         parts = st.get("parts") or []
@@ -1579,18 +1896,27 @@ def clauses(op, prev, cur, parts=None):
             # a missing value may come back filled only for an input handed over as a bare DataFrame
             pool = _ms([_mask(x, ["object_id"]) for df, rows in ins for r in rows for x in ((r, fz(r)) if df else (r,))])
             member = lambda r: _mask(r, ["object_id"]) in pool
-        ids = [val(r, dup) for r in cur]
+        # reading with missing values (the same as Model/C08_Check.lean dropDupClausesM): ids are compared with ==, so a row with a
+        # missing id duplicates nothing and ALL such rows survive; a missing decision value is never the best one (pandas sorts
+        # missing values last whatever the direction): a survivor without one is right only if no row of its id has one
+        ids = [val(r, dup) for r in cur if not _nan(val(r, dup))]
+        sids = {val(r, dup) for r in src if not _nan(val(r, dup))}
+        nmiss_cur, nmiss_src = sum(1 for r in cur if _nan(val(r, dup))), sum(1 for r in src if _nan(val(r, dup)))
         if len(py_uniq(ids)) != len(ids):
             out.append(("dropdup-one-row-per-id", f"{dup} values after dropping duplicates repeat: {sorted(ids)[:12]}"))
-        if set(ids) != {val(r, dup) for r in src}:
-            out.append(("dropdup-every-id-survives", f"ids before {sorted({val(r, dup) for r in src})[:12]} after {sorted(set(ids))[:12]}"))
+        if set(ids) != sids or nmiss_cur != nmiss_src:
+            out.append(("dropdup-every-id-survives", f"ids before {sorted(sids)[:12]} (+{nmiss_src} rows without id) after {sorted(set(ids))[:12]} (+{nmiss_cur} rows without id)"))
         for r in cur:
             if not member(r):
                 out.append(("other-fields-unchanged", f"row after drop_duplicates is not a row of the input: {_fmt_row(r)}")); break
             same = [val(s, dec) for s in src if val(s, dup) == val(r, dup)]
-            best = (min(same) if asc else max(same)) if same else None
-            if same and val(r, dec) != best:
-                out.append(("dropdup-keeps-best-scoring-row", f"{dup}={val(r, dup):g}: kept {dec}={val(r, dec):g}, best is {best:g} ({'ascending' if asc else 'descending'})")); break
+            have = [d for d in same if not _nan(d)]
+            d = val(r, dec)
+            if _nan(d):
+                if have:
+                    out.append(("dropdup-keeps-best-scoring-row", f"{dup}={val(r, dup):g}: kept a row WITHOUT {dec} although rows of this id have one (best {(min(have) if asc else max(have)):g})")); break
+            elif have and d != (min(have) if asc else max(have)):
+                out.append(("dropdup-keeps-best-scoring-row", f"{dup}={val(r, dup):g}: kept {dec}={d:g}, best is {(min(have) if asc else max(have)):g} ({'ascending' if asc else 'descending'})")); break
         if k == "merge_dropdup":
             out += _object_clauses(ins, cur, by_position=False)
     elif k == "merge_renumber":
@@ -1692,34 +2018,58 @@ def _side_findings(k, op, st, prev, verdict, model):
 
 
 def _judge(case, obs, resps):
-    """spec findings are decided by the Lean VERIFIED CHECKERS (`check` requests: Model/C08_Check.lean, theorems
-    check_*_sound / check_*_complete / check_history_rows) applied to the REAL output of every operation, or by an evaluation
-    that involves neither the model nor a sub-result of the implementation: an exception raised inside cryocat, a text cell in a
-    numeric field, a caller-owned argument that differs from its picture taken before the call. The Python clause evaluators
-    (`clauses`) only cross-check the checker (a disagreement is a corr finding) and supply the human-readable detail. Everything
-    compared with the MODEL (table, parts, index state, dtypes, class) is corr."""
+    """spec findings are decided by the Lean VERIFIED CHECKERS (`check` requests: Model/C08_Check.lean; the verdict of a step comes
+    from the executed PROVED instance -- checkers at `Cell`, Model/C08_Cell.lean, theorems check_step_iff_executed ... -- whenever no
+    key cell of the step is missing (`proved`), else from the missing-value-aware Float checkers) applied to the REAL output of every
+    operation, or by an exception raised inside cryocat. The Python clause evaluators (`clauses`) only cross-check the checker (a
+    disagreement is a corr finding) and supply the human-readable detail. Everything the statement is silent about (a caller-owned
+    argument edited in place, text in a numeric field) and everything compared with the MODEL (table, parts, index state, dtypes,
+    class) is corr.
+    A step whose rejection is EXACTLY an open known class (C08-K1/K2/K3, `_known_class`) does not end the judging (L-11): the
+    following steps are judged by the checkers against the implementation's ACTUAL tables; only the comparison with the model
+    stops there (its trace has left the implementation's)."""
     steps = obs.get("steps", [])
+    init = obs.get("init") or {}
     if "error" in obs:
         if not obs.get("where"):
             return [dict(kind="corr", clause="harness-or-library-raised", detail=obs["error"])]
         return [dict(kind="spec", clause="raises", detail=obs["error"] + " @" + obs.get("where", ""))]
+    if "error" in init:
+        # building the list is not one of the operations of the statement
+        return [dict(kind="corr", clause="list-construction-raised", detail=f"{case.get('cls0', 'Motl')}(<frame with the 20 columns>): {init['error']} @{init.get('where', '')}")]
     chain, sides, stop = _plan(case, obs)
     model = resps[0] if resps else {"error": "no response"}
     check = resps[1] if len(resps) > 1 else {"error": "no checker response"}
     side_of = {k: (2 + 2 * i, 3 + 2 * i) for i, (k, _, _, _) in enumerate(sides)}
     chain_pos = {k: i for i, (k, _, _) in enumerate(chain)}
-    prev = case["base"]
+    prev = _start(case, obs)
     corr = []      # the first disagreement with the model / documented behaviour; later steps are still judged by the checkers
+    known = []     # spec findings that are exactly an open known class; judging goes on after them
+    diverged = False
+    cls0 = case.get("cls0", "Motl")
+    cur_type = {"load": "EmMotl"}.get(cls0, cls0)
+    if init:
+        want0 = [list(fz(r)) for r in case["base"]] if cls0 != "Motl" else case["base"]
+        if init.get("type") != cur_type:
+            corr = [dict(kind="corr", clause="returned-class", detail=f"constructing the list gave a {init.get('type')}, documented {cur_type}")]
+        elif init.get("rows") != want0:
+            corr = [dict(kind="corr", clause="list-construction-vs-documented", detail=f"{cls0}(frame): the table of the new list differs from the frame" + (" with missing values filled" if cls0 != "Motl" else ""))]
+
+    def done(extra):
+        return known + extra
+
     for k, (op, st) in enumerate(zip(case["ops"], steps)):
         name = op["op"]
         if "error" in st:
             if st.get("harness"):   # G4: no frame inside cryocat/ -> not the property's business
-                return [dict(kind="corr", clause="harness-or-library-raised", step=k, detail=f"op {k} {name}: {st['error']} (no frame inside cryocat/)")]
-            return [dict(kind="spec", clause=f"{name}-raises", step=k, detail=f"op {k} {name}: {st['error']} @{st.get('where','')}")]
+                return done([dict(kind="corr", clause="harness-or-library-raised", step=k, detail=f"op {k} {name}: {st['error']} (no frame inside cryocat/)")])
+            etype = st["error"].split(":")[0]
+            return done([dict(kind="spec", clause=f"{name}-raises", step=k, detail=f"op {k} {name} on a {cur_type}" + (f" (class method of {op['cls']})" if op.get("cls") else "")
+                              + f": {st['error']} @{st.get('where','')} [{etype}]")])
         tabs = [st] + (st.get("parts") or [])
         txt = [x for t in tabs for x in t.get("text", [])]
-        if txt:                      # G3: a numeric field came back as text
-            return [dict(kind="spec", clause="field-not-numeric", step=k, detail=f"op {k} {name}: text in numeric field(s): {txt[:4]}; dtypes {st.get('dtypes')}")]
+        if txt:                      # G3: a numeric field came back as text (the statement is silent about representations: corr)
+            return done([dict(kind="corr", clause="field-not-numeric", step=k, detail=f"op {k} {name}: text in numeric field(s): {txt[:4]}; dtypes {st.get('dtypes')}")])
         is_side = k in side_of
         if is_side:
             vresp = resps[side_of[k][1]] if len(resps) > side_of[k][1] else {"error": "no checker response"}
@@ -1727,27 +2077,33 @@ def _judge(case, obs, resps):
         else:
             vresp, vlist, vi = check, check.get("verdicts", []) if isinstance(check, dict) else [], chain_pos.get(k, 10 ** 9)
         if "error" in vresp or vi >= len(vlist):
-            return [dict(kind="corr", clause="checker-error", step=k, detail=f"op {k} {name}: no verdict from the Lean checker: {str(vresp)[:300]}")]
+            return done([dict(kind="corr", clause="checker-error", step=k, detail=f"op {k} {name}: no verdict from the Lean checker: {str(vresp)[:300]}")])
         verdict = vlist[vi]
         if not verdict["schema"]:
             t = next((t for t in tabs if not _schema_ok(t)), st)
             missing = [f for f in FIELDS if f not in t["cols"]]
             extra = [c for c in t["cols"] if c not in FIELDS]
-            return [dict(kind="spec", clause="exactly-the-20-fields", step=k, detail=f"op {k} {name}: table has {len(t['cols'])} columns; missing {missing}, extra {extra}")]
+            return done([dict(kind="spec", clause="exactly-the-20-fields", step=k, detail=f"op {k} {name}: table has {len(t['cols'])} columns; missing {missing}, extra {extra}")])
         if not all(_schema_ok(t) for t in tabs):
-            return [dict(kind="corr", clause="checker-vs-python-evaluator", step=k, detail=f"op {k} {name}: the Lean schema check accepted column names {st['cols']}")]
-        if st.get("mutated"):        # G2: the call edited something the caller owns
-            return [dict(kind="spec", clause="caller-input-mutated", step=k, detail=f"op {k} {name}: after the call the caller's {st['mutated']} differ(s) from before the call "
-                         "(the operation returns a new list; its arguments are not part of the result)")]
+            return done([dict(kind="corr", clause="checker-vs-python-evaluator", step=k, detail=f"op {k} {name}: the Lean schema check accepted column names {st['cols']}")])
+        if not verdict.get("agree", True):
+            corr = corr or [dict(kind="corr", clause="checker-instances-disagree", step=k, detail=f"op {k} {name}: the checkers at Cell (proved instance) and at Float (IEEE) give different verdicts although no key cell is missing")]
+        if st.get("mutated"):        # G2: the call edited something the caller owns (the statement is silent about arguments: corr)
+            return done([dict(kind="corr", clause="caller-input-mutated", step=k, detail=f"op {k} {name}: after the call the caller's {st['mutated']} differ(s) from before the call "
+                              "(the operation returns a new list; its arguments are not part of the result)")])
         cur = st["rows"]
         if is_side:
             smodel = resps[side_of[k][0]] if len(resps) > side_of[k][0] else {}
             fs = _side_findings(k, op, st, prev, verdict, smodel)
             if fs and fs[0]["kind"] == "spec":
-                return fs
-            corr = corr or fs
+                if all(_known_class(case, obs, f) for f in fs):
+                    known += fs
+                else:
+                    return done(fs)
+            else:
+                corr = corr or fs       # a side split is compared with the model run from the REAL table before it
             if cur != prev:
-                return [dict(kind="spec", clause="caller-input-mutated", step=k, detail=f"op {k} split: the list itself changed although split_by_feature only returns parts")]
+                return done([dict(kind="corr", clause="caller-input-mutated", step=k, detail=f"op {k} split: the list itself changed although split_by_feature only returns parts")])
             continue
         parts = [p["rows"] for p in st["parts"]] if "parts" in st else None
         try:
@@ -1756,21 +2112,38 @@ def _judge(case, obs, resps):
             import traceback
             fs = [("clause-evaluator-crashed", f"{type(e).__name__}: {e} {traceback.format_exc()[-400:]}")]
         if fs and fs[0][0] == "clause-evaluator-crashed":
-            return [dict(kind="corr", clause=fs[0][0], step=k, detail=f"op {k} {name}: {fs[0][1]}")]
-        if not verdict["ok"]:
+            return done([dict(kind="corr", clause=fs[0][0], step=k, detail=f"op {k} {name}: {fs[0][1]}")])
+        rejected = not verdict["ok"]
+        if rejected:
             pyd = dict(fs)
             failed = list(dict.fromkeys(verdict["failed"] or ["checker-rejected"]))
             note = "" if fs else " [the Python cross-check evaluator saw no failing clause]"
-            return [dict(kind="spec", clause=c, step=k, detail=f"op {k} {name}: Lean checker rejects the real output: " + pyd.get(c, "; ".join(d for _, d in fs) or f"{len(prev)} rows in, {len(cur)} rows out") + note)
-                    for c in failed]
-        if fs:
+            sp = [dict(kind="spec", clause=c, step=k, detail=f"op {k} {name}: Lean checker ({'proved instance' if verdict.get('proved') else 'missing-key instance'}) rejects the real output: "
+                       + pyd.get(c, "; ".join(d for _, d in fs) or f"{len(prev)} rows in, {len(cur)} rows out") + note) for c in failed]
+            if all(_known_class(case, obs, f) for f in sp):
+                known += sp
+                diverged = True
+            else:
+                return done(sp)
+        elif fs:
             corr = corr or [dict(kind="corr", clause="checker-vs-python-evaluator", step=k,
                                  detail=f"op {k} {name}: the Lean checker accepts the real output but the Python evaluator reports {c}: {d}") for c, d in fs]
         # ---- everything below compares with the model / the documented behaviour: corr
         odd = {c: t for tb in tabs for c, t in (tb.get("dtypes") or {}).items()}
-        want_type = "DataFrame" if (name == "subset" and op.get("ret_df")) else "Motl"
+        if name == "subset":
+            want_type = "DataFrame" if op.get("ret_df") else "Motl"
+        elif name in ("intersect", "merge_renumber", "merge_dropdup"):
+            want_type = op.get("cls", "Motl")
+        elif name == "split" and not op.get("keep"):
+            want_type = "Motl"
+        else:
+            want_type = cur_type
         ci = chain_pos[k]
-        if corr:
+        # a missing DECISION value or id: the model's sort compares with `<` only (no order on a missing value), pandas puts
+        # missing values last -- the documented behaviour is then the Python rendering py_dropdup, and the model's trace is left
+        nan_dec = (name == "dropdup" and (has_nan(prev, op["dec"]) or has_nan(prev, op["dup"]))) or \
+                  (name == "merge_dropdup" and any(has_nan(rows, "score") or has_nan(rows, "subtomo_id") for df, rows in inputs_of(op, prev) if not df))
+        if corr or rejected:
             pass
         elif odd:                      # G3: numeric, but not the float64 the lists are made of
             corr = corr or [dict(kind="corr", clause="dtype-vs-model", step=k, detail=f"op {k} {name}: columns not float64: {odd}")]
@@ -1782,6 +2155,14 @@ def _judge(case, obs, resps):
             corr = corr or [dict(kind="corr", clause="column-order", step=k, detail=f"op {k} {name}: column order {st['cols']} is neither the documented nor the input's")]
         elif "first" in st and st["first"] != (parts if name == "split" else cur):
             corr = corr or [dict(kind="corr", clause="second-call-differs-from-first", step=k, detail=f"op {k} {name}: the same call on the same objects gave a different result the second time (the second is the one judged)")]
+        elif nan_dec:
+            sim = py_step(prev, op)
+            if sim != cur:
+                corr = corr or [dict(kind="corr", clause=f"{name}-vs-documented-missing-last", step=k, detail=f"op {k} {name}: with missing decision values the result differs from sort_values (missing last) + keep first: {len(sim)} vs {len(cur)} rows")]
+            if not ("error" in model) and ci < len(model.get("states", [])) and model["states"][ci] != cur:
+                diverged = True
+        elif diverged:
+            pass
         elif "error" in model:
             corr = corr or [dict(kind="corr", clause="model-error", step=k, detail=str(model))]
         elif model["states"][ci] != cur:
@@ -1795,19 +2176,20 @@ def _judge(case, obs, resps):
         elif parts is not None and model["parts"][ci] != parts:
             corr = corr or [dict(kind="corr", clause="split-parts-vs-model", step=k, detail=f"op {k}: parts differ from the model's (count {len(parts)} vs {len(model['parts'][ci])})")]
         prev = cur
+        cur_type = st.get("type") if st.get("type") != "DataFrame" else "Motl"
     if corr:
-        return corr
+        return done(corr)
     out = []
     if len(steps) != len(case["ops"]):
         out.append(dict(kind="corr", clause="history-truncated", detail=f"{len(steps)} of {len(case['ops'])} ops observed"))
-    elif "error" not in check and not check.get("run_ok", False):
-        out.append(dict(kind="corr", clause="checker-run-vs-steps", detail="every step was accepted but checkRun (the function check_history_rows is about) is false"))
-    return out
+    elif "error" not in check and not known and check.get("run_proved") and not check.get("run_ok", False):
+        out.append(dict(kind="corr", clause="checker-run-vs-steps", detail="every step was accepted by the proved instance but checkRunQ (the function check_history_rows_executed is about) is false"))
+    return done(out)
 
 
 def _real_before(case, obs, k):
     steps = obs.get("steps", [])
-    return case["base"] if k == 0 else steps[k - 1].get("rows")
+    return _start(case, obs) if k == 0 else steps[k - 1].get("rows")
 
 
 def judge(case, obs, resps):
@@ -1854,18 +2236,23 @@ def _known_class(case, obs, finding):
                 and clause in ("renumber-objects-keeps-grouping", "renumber-objects-consecutive"):
             if st["rows"] == k1_renumber_objects(prev, b2f(op["start"])):
                 return "C08-K1"
-        if name == "dropdup" and has_nan(prev, op["dup"]) and clause in ("dropdup-every-id-survives", "dropdup-one-row-per-id"):
-            if st["rows"] == py_dropdup(prev, op["dup"], op["dec"], op["asc"]):
+        nmiss = lambda rows, f: sum(1 for r in rows if r[IDX[f]] == NANB)
+        if name == "dropdup" and clause == "dropdup-every-id-survives":
+            # exactly the listed class: at least two rows without an id, collapsed into one, everything else as pandas does it
+            if nmiss(prev, op["dup"]) >= 2 and nmiss(st["rows"], op["dup"]) == 1 and st["rows"] == py_dropdup(prev, op["dup"], op["dec"], op["asc"]):
                 return "C08-K2"
         if name in ("merge_renumber", "merge_dropdup"):
             ins = inputs_of(op, prev)
             nan_obj = any((not df) and has_nan(rows, "object_id") for df, rows in ins)
             nan_id = any((not df) and has_nan(rows, "subtomo_id") for df, rows in ins)
             sim = py_step(prev, op)
-            if st["rows"] == sim:
+            if st["rows"] == sim and not refills(op):
+                # K3: an actual collision / lost grouping (the checkers accept a merge whose numbers do not collide)
                 if nan_obj and clause in ("merge-object-numbers-never-collide", "merge-keeps-each-inputs-grouping", "merge-dropdup-no-certificate"):
                     return "C08-K3"
-                if name == "merge_dropdup" and nan_id and clause in ("dropdup-every-id-survives", "dropdup-one-row-per-id", "merge-dropdup-no-certificate"):
+                merged_ids = [r for df, rows in ins if not df for r in rows]
+                if name == "merge_dropdup" and nan_id and nmiss(merged_ids, "subtomo_id") >= 2 and nmiss(st["rows"], "subtomo_id") == 1 \
+                        and clause in ("dropdup-every-id-survives", "merge-dropdup-no-certificate"):
                     return "C08-K2"
     except Exception:
         return None
@@ -2012,7 +2399,8 @@ def probes(rng):
 
 LEVEL_TEXT = ("Lean 4 verified checkers deciding the clauses of the statement on the REAL output of every operation (checkSchema/checkSubset/checkRemove/checkSplit/"
               "checkIntersect/checkDropDup/checkMergeRenumber/checkMergeDropDup/checkRenumberParticles/checkRenumberObjects with check_*_sound and check_*_complete, "
-              "check_step_iff / check_run_iff: checkStep and checkRun decide EXACTLY the clause Props; check_history_rows and check_merge_renumber_then_selections_nodup for an accepted observed history; "
+              "check_step_iff / check_run_iff: checkStep and checkRun decide EXACTLY the clause Props (StepOK, HintCertOK, RunCertOK: no checker on the right-hand side); "
+              "EXECUTED INSTANCE check_step_iff_executed / check_run_iff_executed / check_history_rows_executed / check_run_accepts_model_executed at Cell = exact rationals + missing; check_history_rows and check_merge_renumber_then_selections_nodup for an accepted observed history; "
               "check_*_accepts_model for EVERY checker incl. the two merges on arbitrary tagged inputs, check_run_accepts_model: checkRun accepts the model's whole run for every history, "
               "history_rows_via_checkers; check_subset_iff_model / check_renumber_particles_iff_model), plus Lean 4 theorems about an executable model of get_motl_subset / remove_feature / split_by_feature / get_motl_intersection / drop_duplicates / "
               "merge_and_renumber / merge_and_drop_duplicates / renumber_particles / renumber_objects_sequentially, for all lists, all value lists and all "
@@ -2030,6 +2418,11 @@ LEVEL_NOTE = ("trusted: Lean kernel; translator anchors (alpha-normalised: names
               "(check_merge_renumber_accepts_model / check_merge_dropdup_accepts_model: every list of tagged inputs, empty and bare-DataFrame inputs included) and for whole histories "
               "(check_run_accepts_model, hypotheses: fill idempotent, nat injective), so the model-level history theorem is also a corollary of the checker theorems (history_rows_via_checkers); "
               "the merge-and-drop-duplicates checker reads the keys of a bare-DataFrame input (object_id, subtomo_id, score) after loading (loadKeys) and is always offered the model's own "
-              "offsets (mergeOffsets on the REAL previous table) as one more certificate; the theorems are over ordered commutative rings with reflexive =, the driver runs the same defs at IEEE doubles")
+              "offsets (mergeOffsets on the REAL previous table) as one more certificate; the checker theorems are over ordered commutative rings with a lawful cell comparison; the driver decodes every cell into Cell (Model/C08_Cell.lean: an exact rational, "
+              "NaN -> the constant missing) and runs the checkers THERE -- an instance the theorems are about (section `executed` of Props/C08.lean) -- for every step without a missing "
+              "key cell (keysPresent); steps with a missing key (nan-key / nan-decision streams) are judged by the missing-value-aware Float checkers (stepClausesM: not covered by "
+              "theorems; dropDupClausesM_no_missing, *_witness theorems over the 3-valued type W); the MODEL (trace) still runs at IEEE doubles (trace_eq_run ties it to `run`); "
+              "whole-body digests ignore annotations, message texts, discards and the position of constant initialisations; locals of the merges / the intersection are identified by role; "
+              "no_subclass_overrides + subclass_constructors_documented cover the classes users actually hold")
 TECHNIQUE = "Lean 4 proof (list induction, permutation/partition lemmas, sortedness invariants, ordered-ring arithmetic) + regenerated operators + bit-exact differential histories"
 DESIGN_REF = "DESIGN.md section 4, C08"
